@@ -50,10 +50,8 @@ func (e *Enc) calleeNames(cs *callSite) (simple []string, quals []string) {
 		}
 		n := strings.TrimSuffix(fn.Name(), "$bound")
 		simple = append(simple, n)
-		if fn.Pkg != nil {
-			quals = append(quals, fn.Pkg.Pkg.Name())
-		}
 		if r := fn.Signature.Recv(); r != nil {
+			// methods are qualified by their receiver type
 			t := r.Type()
 			if p, ok := t.(*types.Pointer); ok {
 				t = p.Elem()
@@ -61,6 +59,10 @@ func (e *Enc) calleeNames(cs *callSite) (simple []string, quals []string) {
 			if nt, ok := t.(*types.Named); ok {
 				quals = append(quals, nt.Obj().Name())
 			}
+		} else if fn.Pkg != nil {
+			quals = append(quals, fn.Pkg.Pkg.Name())
+		} else if fn.Object() != nil && fn.Object().Pkg() != nil {
+			quals = append(quals, fn.Object().Pkg().Name())
 		}
 	} else if cs.invoke {
 		simple = append(simple, cs.common.Method.Name())
